@@ -213,7 +213,7 @@ class CompileExplorer(Explorer):
     def __init__(self, world, depth=2, unary=None):
         from .cachesim import UNARY
 
-        super().__init__(world, depth=depth, backend="sqlite", unary=unary or (UNARY + ("arrange_last", "slice2")), binary=())
+        super().__init__(world, depth=depth, backend="sqlite", unary=unary or (UNARY + ("arrange_last", "slice2", "slice3", "summ_over")), binary=())
         self.compiled = 0
 
     def signature(self, sim):
@@ -327,3 +327,97 @@ def report(chk, m, rule, classes, depth_quick=2, depth_thorough=3, floor=100):
     chk.floor(rule, "pipelines compiled end to end", ex.compiled, floor)
     chk.extra_cov.setdefault("pipeline_simulation", {}).update({"depth": depth, "compiled": ex.compiled, **ex.stats})
     return True
+
+
+def alias_name_scenarios(w: RealWorld):
+    """`create_aliases` interpreted on join trees with several occurrences of one source table: every occurrence gets its own SQL
+    alias, and the names do not depend on queries built before.  -> list of (description, ok, detail)"""
+    p = w.p
+    f = w.env["create_aliases"]
+    out = []
+
+    def leaf(log):
+        src, _cache = w.source("t", ["a"])
+        tbl = src.attrs["table"]
+        tbl.attrs["name"] = "t"
+
+        def alias(new_name, _t=tbl, _log=log):
+            _log.append(new_name)
+            return _t
+
+        tbl.attrs["alias"] = Native(alias, "table.alias")
+        return src
+
+    def tree(shape, log):
+        lit = w.lit(True)
+        if shape == "left-deep":
+            n = leaf(log)
+            for _ in range(2):
+                n = w.obj("Join", child=n, right=leaf(log), on=lit, how="inner", validate="m:m")
+            return n
+        if shape == "right-deep":
+            inner = w.obj("Join", child=leaf(log), right=leaf(log), on=lit, how="inner", validate="m:m")
+            return w.obj("Join", child=leaf(log), right=inner, on=lit, how="inner", validate="m:m")
+        inner = w.obj("Union", child=leaf(log), right=leaf(log), distinct=False)
+        return w.obj("Join", child=inner, right=w.obj("Filter", child=leaf(log), predicates=[lit]), on=lit, how="inner", validate="m:m")
+
+    nparams = len(f.node.args.args)
+    has_default = len(f.node.args.defaults) >= 1
+    for shape in ("left-deep", "right-deep", "union below a join"):
+        log = []
+        p.call(f, [tree(shape, log), {}])
+        out.append((f"three occurrences of one table, {shape}: pairwise different aliases", len(log) == 3 and len(set(log)) == 3,
+                    f"create_aliases on a {shape} tree with three occurrences of table `t` gives the aliases {log}: two FROM items with the same name "
+                    "make every column of them ambiguous"))  # fmt: skip
+        first = list(log)
+        # a second statement built afterwards gets the same names (no state survives a build)
+        log2 = []
+        try:
+            p.call(f, [tree(shape, log2)] + ([] if has_default else [{}]))
+        except PyRaise as e:
+            out.append((f"{shape}: second build", False, f"create_aliases raises {e.name}: {e.msg}"))
+            continue
+        out.append((f"{shape}: a second build gets the same aliases", log2 == first,
+                    f"the second statement built in one process gets the aliases {log2}, the first one {first}: the text of a query depends on the queries "
+                    "built before it (an occurrence counter survives between builds)"))  # fmt: skip
+    return out
+
+
+def split_cond_scenarios(w: RealWorld):
+    """`split_join_cond` interpreted: a conjunction given as `a & b & c`, as `pdt.all(a, b, c)` or nested splits into all of its
+    predicates.  -> list of (description, ok, detail)"""
+    p = w.p
+    tim = p.repo.mod("backend.table_impl")
+    tenv = p.env_of(tim)
+    from .polsim import _OpsNS
+
+    ops = _OpsNS()
+    tenv["ops"] = ops
+    f = tenv["split_join_cond"]
+    out = []
+
+    def fn(op, *args):
+        e = p.new("tree.col_expr", "ColFn", op=op, args=list(args), context_kwargs={}, _dtype=None, _ftype=None, _fn_id="fn")
+        return e
+
+    preds = [fn(ops.equal, w.lit(i), w.lit(i)) for i in range(4)]
+    cases = [
+        ("a & b", fn(ops.bool_and, preds[0], preds[1]), 2),
+        ("a & b & c", fn(ops.bool_and, fn(ops.bool_and, preds[0], preds[1]), preds[2]), 3),
+        ("pdt.all(a, b)", fn(ops.horizontal_all, preds[0], preds[1]), 2),
+        ("pdt.all(a, b, c)", fn(ops.horizontal_all, preds[0], preds[1], preds[2]), 3),
+        ("pdt.all(a, b & c, d)", fn(ops.horizontal_all, preds[0], fn(ops.bool_and, preds[1], preds[2]), preds[3]), 4),
+        ("a single predicate", preds[0], 1),
+    ]
+    for label, cond, n in cases:
+        try:
+            r = p.call(f, [cond])
+            got = list(r)
+            ok = len(got) == n and all(any(g is q for q in preds) for g in got) and len({id(g) for g in got}) == n
+            detail = f"{len(got)} predicates"
+        except PyRaise as e:
+            ok, detail = False, f"raises {e.name}: {e.msg}"
+        out.append((f"split_join_cond({label}) -> {n} predicates", ok,
+                    f"the join condition `{label}` is split into {detail}, it has {n}: a predicate that is dropped is not part of the join (too many rows), "
+                    "and the equality-only check of a full join does not see it"))  # fmt: skip
+    return out
